@@ -448,7 +448,7 @@ def items_for(prop, tier):
                 items += scen_notarget(fl, alg, n, m, ('foreach',), prios=('min', 'max') if alg == 'pfs' else ('min',), modes=('path', 'search'))
                 items += scen_target(fl, alg, n, 2, ('filter',), modes=('path',))
                 items += scen_cycle(fl, alg, n, 2, ('filter',))
-            items += scen_order(fl, n, m, ('foreach',), modes=('nodes',))
+            items += scen_order(fl, n, m, ('foreach',), modes=('nodes', 'edges'))
             items += scen_order(fl, n, 2, ('filter',), modes=('nodes', 'edges'))
     elif prop == 'C09':
         for fl in FLAVOURS:
